@@ -84,6 +84,47 @@ struct Acc {
     distinct: HashSet<u64>,
 }
 
+/// Is the last byte of `s` a newline that lies outside every string and block payload?
+/// (A scanner for payload syntax only: quotes, and `#<d><d digits><payload>`.)  Conservative:
+/// answers false whenever the structure is not plainly that of closed payloads.
+pub fn ends_in_plain_terminator(s: &[u8]) -> bool {
+    if s.last() != Some(&b'\n') {
+        return false;
+    }
+    let mut i = 0usize;
+    while i < s.len() {
+        match s[i] {
+            q @ (b'"' | b'\'') => {
+                // find the closing quote
+                match s[i + 1..].iter().position(|c| *c == q) {
+                    Some(p) => i += p + 2,
+                    None => return false,
+                }
+            }
+            b'#' => {
+                if i + 1 < s.len() && (b'1'..=b'9').contains(&s[i + 1]) {
+                    let w = (s[i + 1] - b'0') as usize;
+                    if i + 2 + w > s.len() {
+                        return false;
+                    }
+                    let digits = &s[i + 2..i + 2 + w];
+                    if digits.iter().all(|c| c.is_ascii_digit()) {
+                        let len: usize = std::str::from_utf8(digits).unwrap().parse().unwrap_or(usize::MAX);
+                        if len > s.len() || i + 2 + w + len > s.len() {
+                            return false;
+                        }
+                        i += 2 + w + len;
+                        continue;
+                    }
+                }
+                i += 1;
+            }
+            _ => i += 1,
+        }
+    }
+    i == s.len()
+}
+
 fn report(acc: &mut Acc, clause: &str, x: &[u8], xy: &[u8], vx: V, vxy: V, start_name: &str, iface: &str) {
     // discriminating feature: what kind of data the input ends in
     let feature = if x.contains(&b'"') || x.contains(&b'\'') {
@@ -139,14 +180,14 @@ fn judge_against_prefixes(acc: &mut Acc, s: &[u8], vs: V, stack: &[V], first: us
             // 'incomplete' only when the input ends inside a unit: a newline outside any string
             // or block payload terminates the unit, so input that ends in a newline and contains
             // no quote and no '#' cannot be incomplete
-            if s.last() == Some(&b'\n') && !s.iter().any(|c| matches!(c, b'"' | b'\'' | b'#')) {
+            if ends_in_plain_terminator(s) {
                 acc.terminated_plain += 1;
                 report(acc, "incomplete-although-terminated", s, s, vs, vs, start_name, iface);
             }
         }
         V::Err(_) => {
             acc.err += 1;
-            if s.last() == Some(&b'\n') && !s.iter().any(|c| matches!(c, b'"' | b'\'' | b'#')) {
+            if ends_in_plain_terminator(s) {
                 acc.terminated_plain += 1;
             }
         }
